@@ -71,6 +71,7 @@ def execute(mod, scn):
     """Pure function (scenario, code in the working tree) -> result dict."""
     c = ctx()
     c.seam.reset_totals()
+    boot.reset_state("score_analysis")  # every run starts from the library's state right after import
     signal.signal(signal.SIGALRM, _alarm)
     signal.alarm(RUN_TIMEOUT_S)
     try:
